@@ -44,6 +44,51 @@ import itertools
 _REPLAY_SEQ = itertools.count()
 
 
+
+def _group_cpu_ticks(sid):
+    """utime + stime (clock ticks) of all processes of session sid."""
+    total = 0
+    for pid in os.listdir("/proc"):
+        if not pid.isdigit():
+            continue
+        try:
+            st = open("/proc/%s/stat" % pid).read()
+            f = st[st.rindex(")") + 2:].split()
+            if int(f[3]) == sid:          # session id
+                total += int(f[11]) + int(f[12])
+        except (OSError, ValueError, IndexError):
+            pass
+    return total
+
+
+def _run_watched(cmd, cwd, env, idle_limit=120):
+    """Run cmd in a session of its own; kill it if the whole session uses (almost) no CPU for idle_limit seconds.
+    Returns (returncode, output, hung)."""
+    import signal
+    import tempfile
+    with tempfile.TemporaryFile(mode="w+", errors="replace") as fo:
+        p = subprocess.Popen(cmd, cwd=cwd, env=env, stdout=fo, stderr=subprocess.STDOUT, text=True, start_new_session=True)
+        last_ticks, last_move, hung = -1, time.time(), False
+        while True:
+            try:
+                p.wait(timeout=5)
+                break
+            except subprocess.TimeoutExpired:
+                pass
+            ticks = _group_cpu_ticks(p.pid)
+            if ticks > last_ticks + 20:          # more than 0.2 s of CPU since the last movement
+                last_ticks, last_move = ticks, time.time()
+            elif time.time() - last_move > idle_limit:
+                hung = True
+                try:
+                    os.killpg(p.pid, signal.SIGKILL)
+                except OSError:
+                    pass
+                p.wait()
+                break
+        fo.seek(0)
+        return p.returncode, fo.read(), hung
+
 class Check:
     def __init__(self, pid, tier, seed=None, level="model_checking"):
         self.pid = pid
@@ -224,8 +269,19 @@ class Check:
             cmd += ["-coverage", "1"]
         cmd.append(module + ".tla")
         t0 = time.time()
-        p = subprocess.run(cmd, cwd=d, env=env, capture_output=True, text=True)
-        out = p.stdout + p.stderr
+        # TLC 1.8.0 has been seen to hang for good (disk state queue: the TLCStatePoolWriter thread gone, every worker
+        # waiting for it; once in some thousand runs, on an oversubscribed host).  A run whose whole process group uses
+        # no CPU for two minutes is killed and started again; that is machinery, never a verdict.
+        for attempt in range(3):
+            rc, out, hung = _run_watched(cmd, d, env, idle_limit=120)
+            shutil.rmtree(meta, ignore_errors=True)
+            if not hung:
+                break
+            if emit and os.path.exists(emit):
+                os.remove(emit)
+        p = subprocess.CompletedProcess(cmd, rc)
+        if hung:
+            raise Broken("TLC run %s used no CPU for two minutes, three times in a row" % tag)
         shutil.rmtree(meta, ignore_errors=True)
         res = {"ok": False, "generated": 0, "distinct": 0, "depth": 0, "out": out,
                "rejected_at": None, "error": None, "wall_s": round(time.time() - t0, 2),
